@@ -2,6 +2,7 @@
    equals the hand model Model/Snake.v on every board, state, action and re-drawn fruit cell. *)
 Require Import JV.Base.Prelude JV.Base.JaxIndex JV.Base.Codec JV.Base.TimeStep JV.Gen.TimeStepSrc JV.Gen.SnakeSrc.
 Require JV.Model.Snake.
+Require Import Btauto.
 Module M := JV.Model.Snake.
 
 Definition conv (s : State) : M.state :=
@@ -15,8 +16,11 @@ Proof. rewrite m_map_map. reflexivity. Qed.
 
 Lemma mask_src R C hd bs : get_action_mask R C hd bs = M.action_mask R C hd bs.
 Proof.
-  unfold get_action_mask, M.action_mask. apply map_ext. intros m.
-  unfold M.is_valid_move, Position_add, M.padd. rewrite dec_src. reflexivity.
+  unfold get_action_mask, M.action_mask. cbv zeta. apply map_ext. intros m.
+  unfold M.is_valid_move, Position_add, M.padd. rewrite ?dec_src.
+  (* the boolean skeleton is decided as a tautology over the atomic comparisons, so that equivalent ways of writing it
+     (~a & ~b, ~(a | b), a reordered disjunction) do not break the tie *)
+  first [reflexivity | btauto].
 Qed.
 
 Lemma head_src hd a : update_head_position hd a = M.padd hd (M.move_of a).
